@@ -91,11 +91,18 @@ extern ssize_t mpt_message_argv(MPT_STRUCT(message) *msg, int sep)
 	}
 	/* find space character not in escapes */
 	if (!isgraph(sep)) {
-		if ((part = mpt_memtok(&curr, 1, "\t \n\r\v", NULL, "'\"")) >= 0) {
-			return part;
+		if (!clen) {
+			part = mpt_memtok(&curr, 1, "\t \n\r\v", NULL, "'\"");
 		}
-		if (clen && (part = mpt_memtok(cont, clen, "\t \n\r\v", NULL, "'\"")) >= 0) {
-			return curr.iov_len + part;
+		/* escape state must survive part borders: single search over all parts */
+		else {
+			struct iovec all[1 + clen];
+			all[0] = curr;
+			memcpy(all + 1, cont, clen * sizeof(*cont));
+			part = mpt_memtok(all, 1 + clen, "\t \n\r\v", NULL, "'\"");
+		}
+		if (part >= 0) {
+			return part;
 		}
 		sep = 0;
 	}
